@@ -61,7 +61,7 @@ var callers = []caller{
 	{"goroutine-awaited-by-channel", nil, "",
 		"ch := make ( chan , 2 )\ngo func ( ) {\nch <- 1\n%K\n} ( )\nv := <- ch\n@wait\nfmt.Println ( v )"},
 	{"goroutine-awaited-by-WaitGroup", []string{"sync"}, "",
-		"var wg sync.WaitGroup\nwg.Add ( 1 )\ngo func ( ) {\ndefer wg.Done ( )\n%K\n} ( )\nwg.Wait ( )\n@wait\nfmt.Println ( \"joined\" )"},
+		"var wg sync.WaitGroup\nwg.Add ( 1 )\ngo func ( ) {\nwg.Done ( )\n%K\n} ( )\nwg.Wait ( )\n@wait\nfmt.Println ( \"joined\" )"},
 	{"tables.Find-predicate", []string{"tables"}, "",
 		"t := tables.New ( \"Name\" , \"Age\" )\nt.AddRow ( \"Tom\" , 55 )\nt.AddRow ( \"Bob\" , 35 )\nt.AddRow ( \"Sue\" , 41 )\nrows := t.Find ( func ( name string , age string ) bool {\n%K\nreturn name != \"Bob\" && age != \"0\"\n} )\nfmt.Println ( rows )"},
 }
@@ -108,7 +108,8 @@ func nestedShapes() []shape {
 		{"called-function", "func inner ( n int ) int {\n%K\nreturn n + 1\n}", "inner ( 1 )", nil},
 		{"sort.Slice-comparator", "func inner ( n int ) int {\nb := [ ] int { 4 , 2 , 6 , 1 }\nsort.Slice ( b , func ( i int , j int ) bool {\n%K\nreturn b [ i ] < b [ j ]\n} )\nreturn b [ 0 ] + n\n}", "inner ( 1 )", []string{"sort"}},
 		{"String-method", "type Label int\nfunc ( l Label ) String ( ) string {\n%K\nreturn \"label\"\n}\nfunc inner ( n int ) int {\nvar l Label = 2\nfmt.Println ( l )\nreturn n\n}", "inner ( 1 )", nil},
-		{"goroutine", "func spawned ( n int ) {\n%K\n}\nfunc inner ( n int ) int {\ngo spawned ( n )\n@wait\nreturn n\n}", "inner ( 1 )", nil},
+		// awaited through a channel: @wait inside a goroutine would wait for itself
+		{"goroutine", "func spawned ( c chan , n int ) {\nc <- n\n%K\n}\nfunc inner ( n int ) int {\nc := make ( chan , 1 )\ngo spawned ( c , n )\nv := <- c\nreturn v\n}", "inner ( 1 )", nil},
 	}
 
 	for _, c := range callers {
